@@ -94,3 +94,43 @@ def bool_switches(fn, pred):
                 out.append(S)
                 break
     return out
+
+
+def fixpoint_flags(fn):
+    """Bool locals used as the "something changed" flag of a fixpoint loop: tested by a switch, reset to false and raised to
+    true inside a cycle that contains the test.  Returns [(local, [(block, kind, is_const, int|None)])]."""
+    out = []
+    for l, loc in enumerate(fn.locals):
+        if loc["ty"].strip() != "bool" or l == 0:
+            continue
+        defs = fn.whole_defs(l)
+        if len(defs) < 2:
+            continue
+        info = []
+        for (b, k, st) in defs:
+            if k != "t" and st["rv"]["k"] == "use" and isinstance(st["rv"]["a"], dict) and st["rv"]["a"].get("int") in (0, 1):
+                info.append((b, k, True, st["rv"]["a"]["int"]))
+            else:
+                info.append((b, k, False, None))
+        if not any(c and v == 0 for (_b, _k, c, v) in info):
+            continue
+        tests = []
+        for S in sorted(fn.live):
+            t = fn.blocks[S]["t"]
+            if t["k"] == "switch":
+                pl = (t["d"].get("move") or t["d"].get("copy")) if isinstance(t["d"], dict) else None
+                while pl is not None and not pl["p"] and pl["l"] != l:
+                    dd = fn.whole_defs(pl["l"])
+                    if len(dd) == 1 and dd[0][1] != "t" and dd[0][2]["rv"]["k"] == "use" and isinstance(dd[0][2]["rv"]["a"], dict):
+                        pl = dd[0][2]["rv"]["a"].get("copy") or dd[0][2]["rv"]["a"].get("move")
+                    else:
+                        break
+                if pl is not None and not pl["p"] and pl["l"] == l:
+                    tests.append(S)
+        if not tests:
+            continue
+        resets = [b for (b, _k, c, v) in info if c and v == 0]
+        in_loop = any(r in fn.reach_from_succ(S) and S in fn.reach_from_succ(r) for S in tests for r in resets)
+        if in_loop:
+            out.append((l, info))
+    return out
